@@ -144,7 +144,7 @@ func (r *evalRenderer) cond(c string, p []int) string {
 	return fmt.Sprintf("c(\"%s\")", pathStr(p))
 }
 
-var forInData = map[string]string{"arr": "a", "obj": "o", "str": "s", "ustr": "u", "nobj": "m"}
+var forInData = map[string]string{"arr": "a", "obj": "o", "str": "s", "ustr": "u", "nobj": "m", "fstr": "f"}
 
 // keys and values of the objects that for-in loops iterate over
 var forInObjKeys = map[string]map[string]string{
@@ -154,8 +154,10 @@ var forInObjKeys = map[string]map[string]string{
 }
 
 // characters and byte offsets of the strings that for-in loops iterate over
-var forInChars = map[string][]string{"s0": {}, "s1": {"x"}, "s2": {"x", "y"}, "u0": {}, "u1": {"é"}, "u2": {"é", "y"}}
-var forInOffsets = map[string][]int{"s0": {}, "s1": {0}, "s2": {0, 1}, "u0": {}, "u1": {0}, "u2": {0, 2}}
+var forInChars = map[string][]string{"s0": {}, "s1": {"x"}, "s2": {"x", "y"}, "u0": {}, "u1": {"é"}, "u2": {"é", "y"},
+	// U+FFFD is an ordinary character of a string (a decoder also produces it for an unpaired surrogate escape)
+	"f2": {"\ufffd", "y"}}
+var forInOffsets = map[string][]int{"s0": {}, "s1": {0}, "s2": {0, 1}, "u0": {}, "u1": {0}, "u2": {0, 2}, "f2": {0, 3}}
 
 func (r *evalRenderer) stmt(s Node, p []int, depth int) string {
 	in := ind(depth)
@@ -354,7 +356,7 @@ func (r *evalRenderer) renderEvalProgram(prog Node, conds []bool) evalProgram {
 
 // the for-in data as a jqawk object literal (single-quoted strings are fine)
 func forInDocLiteral() string {
-	return `{a0: [], a1: ["e0"], a2: ["e0", "e1"], o0: {}, o1: {k0: "v0"}, o2: {k0: "v0", k1: "v1"}, s0: "", s1: "x", s2: "xy", u0: "", u1: "é", u2: "éy", m4: {"9": "v9", "10": "v10", "1a": "v1a", nan: "vnan"}}`
+	return `{a0: [], a1: ["e0"], a2: ["e0", "e1"], o0: {}, o1: {k0: "v0"}, o2: {k0: "v0", k1: "v1"}, s0: "", s1: "x", s2: "xy", u0: "", u1: "é", u2: "éy", f2: "�y", m4: {"9": "v9", "10": "v10", "1a": "v1a", nan: "vnan"}}`
 }
 
 type expLine struct {
@@ -416,7 +418,7 @@ func expectedLines(out []any, forins map[string]Node) []expLine {
 					t += fmt.Sprintf(" %d", idx)
 				}
 				lines = append(lines, expLine{Text: t})
-			case "str", "ustr":
+			case "str", "ustr", "fstr":
 				name := fmt.Sprintf("%s%d", forInData[nstr(f, "kind")], nint(f, "n"))
 				t := fmt.Sprintf("it %s %s", ps, forInChars[name][idx])
 				if two {
